@@ -40,7 +40,7 @@ type versionSpec struct {
 }
 
 func buildS1(v versionSpec) *schemabuilder.Schema {
-	s := schemabuilder.NewSchemaWithName("s1")
+	s := schemabuilder.NewSchemaWithName(svcNames[0])
 	vals := map[string]Mode{"FAST": 1, "SLOW": 2}
 	if v.modeExtra {
 		vals["TURBO"] = 3
@@ -93,7 +93,7 @@ func buildS1(v versionSpec) *schemabuilder.Schema {
 }
 
 func buildS2() *schemabuilder.Schema {
-	s := schemabuilder.NewSchemaWithName("s2")
+	s := schemabuilder.NewSchemaWithName(svcNames[1])
 	user := s.Object("User", EUser{}, schemabuilder.FetchObjectFromKeys(func(args struct{ Keys []*EUser }) []*EUser { return args.Keys }))
 	user.Key("id")
 	dev := s.Object("Device", EDev{}, schemabuilder.FetchObjectFromKeys(func(args struct{ Keys []*EDev }) []*EDev { return args.Keys }))
@@ -122,7 +122,30 @@ func introspect(sb *schemabuilder.Schema) (*federation.IntrospectionQueryResult,
 	return &r, schema
 }
 
+// the names the two services (and the two versions of the first) go by; the outcome must not depend on them
+var svcNames = [2]string{"s1", "s2"}
+
+// whether ConvertVersionedSchemas rejected a pair under the first naming (every process computes all of them)
+var rejected = map[string]bool{}
+
+var namings = []struct {
+	svc [2]string
+	ver [2]string
+}{
+	{[2]string{"s1", "s2"}, [2]string{"v1", "v2"}},
+	{[2]string{"core_api", "a"}, [2]string{"zeta", "alpha"}}, // the separator of federation fields in a name; reversed sort orders
+	{[2]string{"a", "a_b"}, [2]string{"", "1.0_rc"}},         // a name that is a prefix of the other
+}
+
 func runE2E(rp *explore.Report, tier string) {
+	for ni, naming := range namings {
+		svcNames = naming.svc
+		runE2ENamed(rp, ni, naming.ver)
+	}
+	svcNames = namings[0].svc
+}
+
+func runE2ENamed(rp *explore.Report, ni int, verNames [2]string) {
 	base := versionSpec{name: "base", age: true, secretPtr: true, devOnS1: true}
 	mod := func(name string, f func(v *versionSpec)) versionSpec { v := base; v.name = name; f(&v); return v }
 	specs := []versionSpec{base,
@@ -136,8 +159,10 @@ func runE2E(rp *explore.Report, tier string) {
 		mod("moves-field-off-service", func(v *versionSpec) { v.devOnS1 = false }),
 	}
 	r2, sch2 := introspect(buildS2())
-	var k int64
 	fail := func(clause, class, item, msg string) {
+		if ni > 0 {
+			clause = "naming/" + clause
+		}
 		rp.AddViolation(&explore.Violation{Item: item, Signature: "c09/e2e/" + clause + "/" + class, Stable: true,
 			Failures: []explore.Failure{{Clause: clause, Msg: msg}}})
 	}
@@ -146,17 +171,25 @@ func runE2E(rp *explore.Report, tier string) {
 			if i == j {
 				continue
 			}
-			k++
-			if !rp.Mine(k) {
+			if !rp.Mine(int64(i*len(specs) + j)) { // one process sees a pair under every naming
+				continue
+			}
+			if ni > 0 && (i+j)%3 != 0 { // a third of the pairs under the other namings
 				continue
 			}
 			va, vb := specs[i], specs[j]
 			class := va.name + "|" + vb.name
 			ra, scha := introspect(buildS1(va))
 			rb, schb := introspect(buildS1(vb))
-			schemas := map[string]map[string]*federation.IntrospectionQueryResult{"s1": {"v1": ra, "v2": rb}, "s2": {"": r2}}
-			versionSchemas := map[string][]*graphql.Schema{"s1": {scha, schb}, "s2": {sch2}}
+			schemas := map[string]map[string]*federation.IntrospectionQueryResult{svcNames[0]: {verNames[0]: ra, verNames[1]: rb}, svcNames[1]: {"": r2}}
+			versionSchemas := map[string][]*graphql.Schema{svcNames[0]: {scha, schb}, svcNames[1]: {sch2}}
 			types, err := federation.ConvertVersionedSchemas(schemas)
+			if ni == 0 {
+				rejected[class] = err != nil
+			} else if (err != nil) != rejected[class] {
+				fail("outcome-independent-of-names", class, class, fmt.Sprintf("under the names %v / %v the pair is rejected=%v (%v), under s1 / s2 rejected=%v", svcNames, verNames, err != nil, err, rejected[class]))
+				continue
+			}
 			if err != nil {
 				// an incompatible pair (e.g. a required argument only one version knows) may be rejected as a whole
 				rp.Cases++
@@ -259,5 +292,5 @@ func queriesFrom(a *advert.Advertised) []string {
 
 func init() {
 	reg.Register(&reg.Harness{Property: "C09", Name: "c09/e2e", Level: "exploration", Run: runE2E,
-		Rule: "end-to-end part: service s1 in every ordered pair of 9 schemabuilder-built versions (field added/removed, optional or required argument added, nullable->non-null, root field added, enum value added, field moved to another service) next to a fixed service s2; the versioned schemas go through ConvertVersionedSchemas/NewPlanner; every generated query (from the merged schema's own introspection, depth<=2, arguments synthesised) that validates against the merged schema must be planned, and every resulting sub-query, after its protobuf round trip, must validate against every version of the service it is sent to"})
+		Rule: "end-to-end part: service s1 in every ordered pair of 9 schemabuilder-built versions (field added/removed, optional or required argument added, nullable->non-null, root field added, enum value added, field moved to another service) next to a fixed service s2; the versioned schemas go through ConvertVersionedSchemas/NewPlanner; every generated query (from the merged schema's own introspection, depth<=2, arguments synthesised) that validates against the merged schema must be planned, and every resulting sub-query, after its protobuf round trip, must validate against every version of the service it is sent to; a third of the pairs again under two other namings of the services and versions (a name containing the federation-field separator, a name that is a prefix of the other, reversed sort orders, an empty version name): accepted or rejected like under s1/s2, and the same oracle"})
 }
